@@ -70,3 +70,61 @@ def int_lit(n):
 
 def utf8_alphabet():
     return ["a", "é", "€", "😀", "\\\\", "\\\"", "\\$", "\\n", "\\x41", "\\xe9", "\\xff", "{", "}", " "]
+
+
+# ---------------------------------------------------------------------------- text that looks like a slot / a number
+LOOKALIKE = ["\\${x}", "${x}", "${y}", "\\${y}", "{x}", "a", "${x}${y}"]
+LOOKALIKE_DEC = {"\\${x}": "${x}", "${x}": "1", "${y}": "${x}", "\\${y}": "${y}", "{x}": "{x}", "a": "a", "${x}${y}": "1${x}"}
+LOOKALIKE_PRE = 'x := "1"\ny := "\\${x}"\n'
+
+
+def lookalike_literals(maxk):
+    """(literal body, decoded value) for every sequence of <= maxk pieces that has at least one real slot"""
+    import itertools
+    out = []
+    for k in range(1, maxk + 1):
+        for ps in itertools.product(LOOKALIKE, repeat=k):
+            lit = "".join(ps)
+            if "${" not in lit.replace("\\${", ""):
+                continue
+            out.append((lit, "".join(LOOKALIKE_DEC[q] for q in ps)))
+    return out
+
+
+def lookalike_pair_scripts(rng, n):
+    """two (or three) different interpolated literals evaluated in ONE run, in both orders, again in a loop and through a
+    function: literals whose decoded text is equal while their slots differ (an escaped `\\${x}` vs a real `${x}`) are
+    different literals.  -> [(source, expected stdout)]"""
+    lits = lookalike_literals(2)
+    by_shape = {}
+    for lit, val in lits:
+        by_shape.setdefault(lit.replace("\\${", "${"), []).append((lit, val))
+    groups = [g for g in by_shape.values() if len(g) >= 2]
+    out = []
+    pairs = [(a, b) for g in groups for a in g for b in g if a != b]
+    rng.shuffle(pairs)
+    extra = [(rng.choice(lits), rng.choice(lits)) for _ in range(n)]
+    for (l1, v1), (l2, v2) in pairs[:n] + extra[:max(0, n - len(pairs))]:
+        out.append((LOOKALIKE_PRE + f'print($"{l1}")\nprint($"{l2}")\nprint($"{l1}")\nfor i in 0 .. 2 {{\n    print($"{l2}" + $"{l1}")\n}}\n'
+                    f'fn f() {{\n    return $"{l1}"\n}}\nfn g() {{\n    return $"{l2}"\n}}\nprint(g() + f() + g())\n',
+                    f"{v1}\n{v2}\n{v1}\n{v2}{v1}\n{v2}{v1}\n{v2}{v1}{v2}\n"))
+    return out
+
+
+NUM_HEADS = ["0", "1", "7", "00", "10", "1_0", "9223372036854775807", "9223372036854775808", "0x", "0X", "0b", "0o", "0e", "1e", "0x1", "0b1", "0xg",
+             "0b2", "1.", "1.5", ".5", "0_", "_0", "1__2", "0x_", "1f", "0b_1", "0xFF", "1E5", "08", "0d"]
+NUM_TAILS = ["", "x", "b", "_", "e", "e5", ".", ".0", "g", "0", " 1", "(", "[0]", "->type()", "..2", "+1", "-1", "--1", "x1"]
+
+
+def number_like_sources():
+    """text that begins like a number, as a statement, an operand, an argument, and INSIDE an interpolation slot (lexed only when
+    evaluated): whatever it is — a number, two tokens, an error — the run completes or reports a diagnostic"""
+    out = []
+    for h in NUM_HEADS:
+        for t in NUM_TAILS:
+            txt = h + t
+            out.append(f'print("a")\nv := {txt}\nprint("b")\n')
+            out.append(f'print("a")\nprint($"n: ${{{txt}}}")\nprint("b")\n')
+            out.append(f'print("a")\nprint($"${{ $"${{{txt}}}" }}")\n')
+            out.append(f'xs := [1, 2]\nprint(xs[{txt}])\n')
+    return list(dict.fromkeys(out))
